@@ -9,7 +9,28 @@ pub(in super::super) enum DecimalMode<'a> {
 /// parses back to the same `f64`), because that is the number the caller means:
 /// the exact binary expansion of `4194304.23_f64` would be `4194304.230000001...`
 pub(super) fn f64_to_decimal(v: f64) -> Option<rust_decimal::Decimal> {
-	rust_decimal::Decimal::from_str_exact(&v.to_string()).ok()
+	str_to_decimal(&v.to_string()).ok()
+}
+
+/// Parses without rounding: errors if the number can't be represented exactly
+pub(super) fn str_to_decimal(v: &str) -> Result<rust_decimal::Decimal, rust_decimal::Error> {
+	rust_decimal::Decimal::from_str_exact(v).or_else(|e| {
+		// Trailing zeroes of the fractional part may be more than what can be stored
+		// although they don't change the number
+		match v.split_once('.') {
+			Some((integer_part, fractional_part)) if fractional_part.ends_with('0') => {
+				let fractional_part = fractional_part.trim_end_matches('0');
+				let end = integer_part.len()
+					+ if fractional_part.is_empty() {
+						0
+					} else {
+						1 + fractional_part.len()
+					};
+				rust_decimal::Decimal::from_str_exact(&v[..end]).map_err(|_| e)
+			}
+			_ => Err(e),
+		}
+	})
 }
 
 pub(super) fn serialize<'r, 'c, 's, W>(
